@@ -238,14 +238,38 @@ func expectedStoredBody(d *Delivered) string {
 	return string(j)
 }
 
+// normBody is a canonical rendering of a block body in which nil and empty
+// slices are the same thing (they are the same thing to every consumer).
 func normBody(b hg.BlockBody) string {
+	if b.StateHash == nil {
+		b.StateHash = []byte{}
+	}
+	if b.FrameHash == nil {
+		b.FrameHash = []byte{}
+	}
+	if b.PeersHash == nil {
+		b.PeersHash = []byte{}
+	}
+	if len(b.Transactions) == 0 {
+		b.Transactions = [][]byte{}
+	} else {
+		txs := make([][]byte, len(b.Transactions))
+		for i, tx := range b.Transactions {
+			if tx == nil {
+				tx = []byte{}
+			}
+			txs[i] = tx
+		}
+		b.Transactions = txs
+	}
+	if len(b.InternalTransactions) == 0 {
+		b.InternalTransactions = []hg.InternalTransaction{}
+	}
+	if len(b.InternalTransactionReceipts) == 0 {
+		b.InternalTransactionReceipts = []hg.InternalTransactionReceipt{}
+	}
 	j, _ := json.Marshal(b)
-	// pass through the same decode/encode as the delivered copy so nil/empty
-	// slices are normalised identically
-	var c hg.BlockBody
-	json.Unmarshal(j, &c)
-	j2, _ := json.Marshal(c)
-	return string(j2)
+	return string(j)
 }
 
 func (m *MonFinality) AfterStep(nw *Network) {
